@@ -17,6 +17,7 @@ HARNESSES = {
     "H3": {"pkg": "./internal/server/", "run": "^TestVerifH3$", "streams": ["h3"], "toolchain": "go1.26.0", "timeout": (300, 900)},
     "H4": {"pkg": ".", "run": "^TestVerifH4$", "streams": ["h4"], "toolchain": "go1.26.0", "timeout": (300, 1200)},
     "H5": {"pkg": ".", "run": "^TestVerifH5$", "streams": ["h5"], "toolchain": "go1.26.0", "timeout": (400, 1800)},
+    "H6": {"pkg": ".", "run": "^TestVerifH6$", "streams": ["h6"], "toolchain": "go1.26.0", "timeout": (400, 2400)},
     "H1": {"pkg": "./internal/proto/", "run": "^TestVerifH1$", "streams": ["h1"], "toolchain": None,
            "timeout": (600, 2400)},
 }
@@ -195,6 +196,27 @@ PROPS["C13"] = {
                     "ReadFrom after Close may return either a queued datagram or the closed error (Go select); not compared"],
 }
 
+PROPS["C14"] = {
+    "modules": ["TurnModel.Props.C14"], "gen": True,
+    "harnesses": ["H6"], "view": ["k6", "kadv", "kwr", "kpw", "kclose"], "outs": None,
+    "alarms": ["probe-lost", "close-leaves-allocation", "close-ignored-438", "h6-setup", "harness-died"],
+    "rule": "H6 runs the real turn.Client (Allocate, UDPConn with its three periodic timers, WriteTo, ReadFrom, Close) against the real turn.Server on the in-memory network "
+            "under virtual time for 5 min - 2 h per history (thorough: up to 6.7 h; directed: library defaults idle 75 min, busy 65 min, worst admissible loss 130 min, Close with a stale "
+            "and with a fresh nonce). Inputs per history: server lifetime / permission / channel timeouts and client refresh intervals on both sides of the theorem's Compatible "
+            "predicate, 0-5 (thorough 50) peers, and for every transaction its fate (k lost requests, then m processed requests whose responses are lost, a+b <= 6, optionally a "
+            "duplicate). Compared with the M7 model, to the millisecond: the instant and outcome of every Refresh / CreatePermission / ChannelBind the server answers, the delivery "
+            "of every probe datagram in both directions, Close's Refresh(0) and AllocationCount after it. Independently of the model the harness raises probe-lost / "
+            "close-leaves-allocation when a Compatible configuration loses a probe or keeps the allocation after Close. distinct = (op kind, outcome) pairs",
+    "trusted_base": LEAN_TB + ["hand-written model TurnModel/Model/KeepAlive.lean tied to internal/client/{allocation,periodic_timer,udp_conn,transaction}.go, client.go and "
+                               "internal/server + internal/allocation by correspondence harness H6 (zero-delay simulated network, testing/synctest clock)",
+                               "steps the model marks undetermined (same-millisecond race between a 438 and another request being built, an action exactly on an expiry "
+                               "instant, Close with a transaction in flight, after the allocation died) are replayed but not compared; their count is in the evidence"],
+    "assumptions": ["PARTIAL: real timer latency, goroutine scheduling delays and network delay are outside the model (zero-delay network, exact timers)",
+                    "alloc_never_dies is proved on the composed model for any run length; permission / binding liveness is proved at the level of the abstract driver "
+                    "(driver_keeps_alive) and checked on the composed model by correspondence only",
+                    "known finding F13: Close ignores a 438 to its Refresh(0)"],
+}
+
 PROOF_NOTE = ("Trusted: Lean 4.33.0 kernel, axioms propext/Classical.choice/Quot.sound only (audited per theorem on every run), "
               "the hand-written model's tie to the code = correspondence harness + compiled driver (agreement observed on generated cases only). ")
 
@@ -285,5 +307,16 @@ MANIFEST_TEXT.update({
 })
 
 # properties whose check is not built yet (kept current; emptied as checks land)
+MANIFEST_TEXT["C14"] = _mt(
+    "alloc_never_dies: on the composed model of the client's refresh drivers (periodic timers, <= 3 attempts, retransmission clock of M5) and the server's expiry timers and "
+    "one-hour nonce window, for every Compatible configuration, every loss / response-loss / duplication pattern leaving one answered transmission per transaction, any number "
+    "of peers and ANY sequence of time steps and probes, the allocation is live at the end of every prefix (induction over events, no bound on duration). "
+    "refresh_keeps_alive + driver_gaps + driver_keeps_alive: any entry whose driver period plus twice its handler time is below the server timeout survives any number of "
+    "periods (permissions, bindings); defaults_compatible + keepalive_consts_regenerated tie the inequality to today's constants; retry_not_stale / srv_stale: 438 recovery; "
+    "close_deletes_partial, and close_with_stale_nonce_keeps_allocation = the machine-checked counterexample to the full Close statement (finding F13). The model is tied to the "
+    "real client and server by H6 to the millisecond over hours of virtual time.",
+    "DESIGN.md §6 C14", "Lean 4 invariant proof over an event-queue model (any run length) + exact-timeline differential correspondence under virtual time",
+    "Partial: zero-delay network and exact timers; permission/binding liveness on the composed model by correspondence only; F13 known.")
+
 NOT_YET = {p: "check under construction in this build phase; no claim is made until its theorems and correspondence run exist"
            for p in ["C%02d" % i for i in range(1, 21)]}
